@@ -16,15 +16,23 @@ open SyneTune.C14 SyneTune.C14Comp
 /-! ### translation of the searcher calls -/
 
 /-- what the searcher does on a call of the scheduler: a call `SState.apply` understands, or —
-which `SState.apply` has no call for — `drop_pending_evaluation(trial_id, resource)` alone -/
+which `SState.apply` has no call for — the arrival of a NaN / infinite result for `(t, r)` with
+`update=True` -/
 inductive SAct
   | call (c : SyneTune.SCall)
-  | dropPending (t r : Nat)
+  | nanArrived (t r : Nat)
 
-/-- effect of one action on the searcher's data -/
+/-- `state_transformer.mark_trial_failed(trial_id)`: the trial id is appended to `failed_trials`
+unless it is there (the same update as inside `SState.apply (.evalFailed t)`) -/
+def markFailed (st : SState) (t : Nat) : SState :=
+  if st.failed.contains t then st else { st with failed := st.failed ++ [t] }
+
+/-- effect of one action on the searcher's data.  `nanArrived t r` (`ModelBasedSearcher._update`
+for a NaN / infinite metric value, /repo commit b827303): `drop_pending_evaluation(t, r)` — the
+first pending entry `(t, r)`, if any — and `mark_trial_failed(t)`; no observation -/
 def applyAct (st : SState) : SAct → Except Err SState
   | .call c => st.apply c
-  | .dropPending t r => .ok { st with pending := dropPending t r st.pending }
+  | .nanArrived t r => .ok (markFailed { st with pending := dropPending t r st.pending } t)
 
 def applyActs (st : SState) : List SAct → Except Err SState
   | [] => .ok st
@@ -40,14 +48,15 @@ def applyActs (st : SState) : List SAct → Except Err SState
   `on_trial_result` (and with `update=True` in `on_trial_complete`).  A finite metric value is
   passed as it is.  For `float("nan")` (and `inf`, which the model's `Metric` does not have)
   `ModelBasedSearcher._update` (called iff `update=True`) "rejects NaN or infinite values": no
-  observation is stored, but — since commit 161f60e of /repo — the pending evaluation the result
+  observation is stored, but — since commit b827303 of /repo — the pending evaluation the result
   replaces, `(trial, resource of the result)`, is dropped, exactly what `label_trial` would have
-  dropped.  With `update=False` the searcher is not updated at all;
+  dropped, and the trial is marked as failed (`nanArrived`).  With `update=False` the searcher
+  is not updated at all;
 * `evalFailed t` — `searcher.evaluation_failed(trial_id)` in `on_trial_error`. -/
 def trCall : SCall → SAct
   | .pending t level => .call (.pending t level)
   | .update t r (.val x) upd => .call (.update t r x upd)
-  | .update t r .nan true => .dropPending t r
+  | .update t r .nan true => .nanArrived t r
   | .update t r .nan false => .call (.update t r 0 false)
   | .evalFailed t => .call (.evalFailed t)
 
